@@ -323,17 +323,16 @@ fn rand_row(rng: &mut Rng, d: usize, style: u64) -> Vec<i64> {
     }).collect()
 }
 
-/// one generated k-NN case.  `allow_known`: may fall in the classes of the recorded findings
-/// (a zero vector among the rows under `<=>`; LIMIT 0)
-fn gen_sql(rng: &mut Rng, allow_known: bool) -> (Case, &'static str) {
+/// one generated k-NN case.  `edge`: may contain a zero vector among the rows under `<=>` (NULL
+/// distance) and LIMIT 0 -- the regimes of the repaired findings F-C24-1 / F-C24-2
+fn gen_sql(rng: &mut Rng, edge: bool) -> (Case, &'static str) {
     let cos = rng.chance(1, 2);
     let d = match rng.below(4) { 0 => 1 + rng.below(3) as usize, 1 => 1 + rng.below(8) as usize, _ => 1 + rng.below(70) as usize };
     let style = rng.below(5);
-    // `<=>` with a NULL key is only modelled for slices of <= 20 rows (insertion sort)
-    let n_max = if cos { 20 } else { 45 };
+    let n_max = 45;
     let n = match rng.below(10) { 0 => rng.below(3) as usize, _ => 1 + rng.below(n_max) as usize };
     let mut rows: Vec<(i64, Vec<i64>)> = vec![];
-    let zero_rows = allow_known && rng.chance(1, 5);
+    let zero_rows = edge && rng.chance(1, 4);
     let mut kind = if cos { "sql_cos" } else { "sql_l2" };
     for i in 0..n {
         let v = match rng.below(8) {
@@ -349,7 +348,7 @@ fn gen_sql(rng: &mut Rng, allow_known: bool) -> (Case, &'static str) {
         rows.push((i as i64 + 1, v));
     }
     if cos && !zero_rows {
-        // keep the case outside finding class 1: no zero vector among the rows
+        // no zero vector among the rows: every row has a cosine distance
         for (_, v) in rows.iter_mut() { if v.iter().all(|x| *x == 0) { v[0] = 1; } }
     }
     let q = if rng.chance(1, 12) { vec![0; d] }
@@ -357,11 +356,10 @@ fn gen_sql(rng: &mut Rng, allow_known: bool) -> (Case, &'static str) {
             else { rand_row(rng, d, style) };
     let limit = match rng.below(10) {
         0 | 1 | 2 => None,
-        3 if allow_known && rng.chance(1, 3) => Some(0),
+        3 if edge && rng.chance(1, 3) => Some(0),
         4 => Some(n as u64 + rng.below(4)),
-        _ => Some(1 + rng.below((n as u64).clamp(1, 20))),
+        _ => Some(1 + rng.below((n as u64).max(1))),
     };
-    let limit = limit.map(|k| k.min(20));
     if cos && rows.iter().any(|(_, v)| v.iter().all(|x| *x == 0)) && q.iter().any(|x| *x != 0) { kind = "sql_cos_zero_vector_row"; }
     if limit == Some(0) { kind = "sql_limit_0"; }
     (Case::Sql { cos, rows, q, limit }, kind)
@@ -406,7 +404,7 @@ fn gen(a: &Args) {
     if let Some(lines) = a.replay_lines() {
         for l in lines { if let Some(c) = Case::parse(&l) { emit(&mut w, &mut weight, &c, "replay"); } }
     } else {
-        // a few fixed small tables first (readable examples of each regime, incl. the recorded findings)
+        // a few fixed small tables first (readable examples of each regime, incl. the witnesses of the repaired findings)
         for l in ["sql m=l2 k=- q=1,0,0 rows=1:3,0,0;2:0,0,0;3:1,1,0;4:-2,0,0;5:1,0,0;6:0,1,0;7:10,0,0;8:1,0,0",
                   "sql m=l2 k=3 q=1,0,0 rows=1:3,0,0;2:0,0,0;3:1,1,0;4:-2,0,0;5:1,0,0;6:0,1,0;7:10,0,0;8:1,0,0",
                   "sql m=cos k=- q=1,0,0 rows=1:3,0,0;2:0,2,0;3:1,1,0;4:-2,0,0;5:1,0,0;6:0,1,0;7:10,0,0;8:1,0,0",
@@ -539,10 +537,10 @@ fn search(a: &Args) {
         if !oracle_f32(&af, &bf) && fails.len() < 20 { fails.push(Case::KF32 { a: af, b: bf }.replay()); }
         tried += 1;
     }
-    // SQL level, outside the classes of the recorded findings
+    // SQL level (zero vectors under <=> and LIMIT 0 included)
     let n_sql = (a.budget / 200).clamp(200, 2000);
     for _ in 0..n_sql {
-        let (c, _) = gen_sql(&mut rng, false);
+        let (c, _) = gen_sql(&mut rng, true);
         if let Case::Sql { cos, rows, q, limit } = &c {
             if !oracle_sql(*cos, rows, q, *limit) && fails.len() < 40 { fails.push(c.replay()); }
         }
